@@ -62,6 +62,26 @@ Proof.
     + destruct (f a); cbn; lia.
 Qed.
 
+Lemma last_default (s : list id) : forall a d d', last (a :: s) d = last (a :: s) d'.
+Proof.
+  induction s as [|b s IH]; intros a d d'; [reflexivity|].
+  change (last (a :: b :: s) d) with (last (b :: s) d).
+  change (last (a :: b :: s) d') with (last (b :: s) d'). apply IH.
+Qed.
+
+Lemma last_cons2 (c c' : id) s x : last (c :: c' :: s) x = last (c' :: s) c.
+Proof. change (last (c :: c' :: s) x) with (last (c' :: s) x). apply last_default. Qed.
+
+Lemma NoDup_app_intro {A} (l1 l2 : list A) :
+  NoDup l1 -> NoDup l2 -> (forall x, In x l1 -> In x l2 -> False) -> NoDup (l1 ++ l2).
+Proof.
+  induction 1 as [|a l Hn Hd IH]; intros H2 Hdis; cbn; [exact H2|].
+  constructor.
+  - intros H. apply in_app_or in H as [H|H]; [contradiction|].
+    apply (Hdis a); [left; reflexivity|exact H].
+  - apply IH; [exact H2|]. intros x H1 H3. apply (Hdis x); [right; exact H1|exact H3].
+Qed.
+
 (* ------------------------------------------------------------------------------------------- *)
 (* dict.fromkeys *)
 
@@ -155,15 +175,16 @@ Section Iter.
   Proof.
     intros S1 S2. constructor.
     - eapply incl_tran; [apply (seg_mono _ _ _ S1)|apply (seg_mono _ _ _ S2)].
-    - intros a b H. apply in_app_or in H as [H|H]; [eapply seg_edge; eauto|eapply seg_edge; eauto].
+    - intros a b H. apply in_app_or in H as [H|H];
+        [apply (seg_edge _ _ _ S1 a b H)|apply (seg_edge _ _ _ S2 a b H)].
     - intros a b H. apply in_app_or in H as [H|H].
-      + eapply seg_fresh; eauto.
+      + apply (seg_fresh _ _ _ S1 a b H).
       + destruct (seg_fresh _ _ _ S2 a b H) as [Ha Hb].
         split; intros Hin; [apply Ha|apply Hb]; apply (seg_mono _ _ _ S1); exact Hin.
     - intros a b H. apply in_app_or in H as [H|H].
       + destruct (seg_cover _ _ _ S1 a b H) as [Ha Hb].
         split; apply (seg_mono _ _ _ S2); assumption.
-      + eapply seg_cover; eauto.
+      + apply (seg_cover _ _ _ S2 a b H).
     - apply NoDup_app_intro; [apply (seg_nodup _ _ _ S1)|apply (seg_nodup _ _ _ S2)|].
       intros [a b] H1 H2.
       destruct (seg_cover _ _ _ S1 a b H1) as [Ha _].
@@ -431,9 +452,10 @@ Section Iter.
 
   Lemma unvisited_nil : length (unvisited []) = dsize g.
   Proof.
-    unfold unvisited. rewrite (proj2 (filter_length_forallb _ _)).
-    - unfold ids. apply seq_length.
-    - apply forallb_forall. intros y _. reflexivity.
+    unfold unvisited.
+    assert (E : forall l, filter (fun y => negb (smem (nm y) [])) l = l).
+    { induction l as [|a l IH]; cbn; [reflexivity|]. f_equal. exact IH. }
+    rewrite E. unfold ids. apply seq_length.
   Qed.
 
   Theorem iter_complete x a b :
@@ -444,17 +466,254 @@ Section Iter.
     assert (C0 : Clo [] (fst (walk (S (dsize g)) g x [])) (snd (walk (S (dsize g)) g x []))).
     { apply walk_clo; [exact Hx|intros []|rewrite unvisited_nil; lia]. }
     set (V := snd (walk (S (dsize g)) g x [])) in *.
-    assert (All : forall y, UReach g x y -> y < dsize g /\ In (nm y) V).
-    { induction 1 as [a0|a0 c b0 Hu IH Hadj] in Hx, Hx0 |- *.
+    assert (All : forall x0 y, UReach g x0 y -> x0 < dsize g -> In (nm x0) V -> y < dsize g /\ In (nm y) V).
+    { intros x0 y HU. induction HU as [a0|a0 c b0 Hu IH Hadj]; intros R0 I0.
       - split; assumption.
-      - destruct (IH Hx Hx0) as [Rc Ic].
+      - destruct (IH R0 I0) as [Rc Ic].
         split.
         + destruct Hadj as [H|H]; apply edge_range in H; tauto.
         + eapply (clo_nb _ _ _ C0 c b0); eauto. }
     destruct (edge_range a b He) as [Ra Rb].
     unfold dag_iterator.
     eapply (clo_edges _ _ _ C0 a b); eauto.
-    - apply All. apply WC; assumption.
-    - apply All. apply WC; assumption.
+    - apply (All x a); [apply WC; assumption|exact Hx|exact Hx0].
+    - apply (All x b); [apply WC; assumption|exact Hx|exact Hx0].
   Qed.
 End Iter.
+
+(* ------------------------------------------------------------------------------------------- *)
+(* ancestors / descendants / siblings *)
+
+Section Queries.
+  Variable g : dag.
+  Variable r : id -> nat.
+  Hypothesis WF : Wf g.
+  Hypothesis RK : Ranked g r.
+
+  Lemma anc_raw_spec : forall f x a, r x < f -> (In a (anc_raw f g x) <-> Reach g a x).
+  Proof.
+    induction f as [|f IH]; intros x a Hf; [lia|].
+    cbn [anc_raw]. rewrite in_flat_map. split.
+    - intros [p [Hp Hin]]. assert (He : Edge g p x) by (apply (wf_sym g WF); exact Hp).
+      apply in_app_or in Hin as [Hin|[<-|[]]].
+      + apply IH in Hin.
+        * eapply Reach_snoc; eauto.
+        * destruct RK as [Hr _]. apply Hr in He. lia.
+      + apply Reach1. exact He.
+    - intros HR. apply Reach_last in HR as [p [He Hor]].
+      exists p. split; [apply (wf_sym g WF); exact He|].
+      apply in_or_app. destruct Hor as [->|HR]; [right; left; reflexivity|].
+      left. apply IH; [|exact HR]. destruct RK as [Hr _]. apply Hr in He. lia.
+  Qed.
+
+  Theorem ancestors_reach x a : In a (ancestors g x) <-> Reach g a x.
+  Proof.
+    unfold ancestors. rewrite dedup_In. apply anc_raw_spec. destruct RK as [_ Hb]. apply Hb.
+  Qed.
+
+  Theorem ancestors_nodup x : NoDup (ancestors g x).
+  Proof. apply dedup_NoDup. Qed.
+
+  Lemma pre_raw_spec : forall f x d, dsize g - r x <= f -> (In d (pre_raw f g x) <-> d = x \/ Reach g x d).
+  Proof.
+    destruct RK as [Hr Hb].
+    induction f as [|f IH]; intros x d Hf; [specialize (Hb x); lia|].
+    cbn [pre_raw In]. rewrite in_flat_map. split.
+    - intros [->|[c [Hc Hin]]]; [left; reflexivity|]. right.
+      apply IH in Hin.
+      + destruct Hin as [->|HR]; [apply Reach1; exact Hc|eapply ReachS; eauto].
+      + assert (Hlt := Hr x c Hc). specialize (Hb c). lia.
+    - intros [->|HR]; [left; reflexivity|]. right.
+      inversion HR as [a0 b0 He|a0 c b0 He HR']; subst.
+      + exists d. split; [exact He|]. apply IH; [|left; reflexivity].
+        assert (Hlt := Hr x d He). specialize (Hb d). lia.
+      + exists c. split; [exact He|]. apply IH; [|right; exact HR'].
+        assert (Hlt := Hr x c He). specialize (Hb c). lia.
+  Qed.
+
+  Theorem descendants_reach x d : In d (descendants g x) <-> Reach g x d.
+  Proof.
+    unfold descendants. rewrite dedup_In, filter_In, pre_raw_spec by lia. split.
+    - intros [[->|HR] Hne]; [|exact HR]. rewrite Nat.eqb_refl in Hne. discriminate.
+    - intros HR. split; [right; exact HR|].
+      apply negb_true_iff. apply Nat.eqb_neq. intros ->. exact (Ranked_irrefl g r x RK HR).
+  Qed.
+
+  Theorem descendants_nodup x : NoDup (descendants g x).
+  Proof. apply dedup_NoDup. Qed.
+
+  Theorem siblings_spec x s :
+    In s (siblings g x) <-> s <> x /\ exists p, Edge g p x /\ Edge g p s.
+  Proof.
+    unfold siblings.
+    assert (E : In s (flat_map (fun p => filter (fun c => negb (Nat.eqb c x)) (children g p)) (parents g x))
+                <-> s <> x /\ exists p, Edge g p x /\ Edge g p s).
+    { rewrite in_flat_map. split.
+      - intros [p [Hp Hin]]. apply filter_In in Hin as [Hc Hne].
+        apply negb_true_iff, Nat.eqb_neq in Hne. split; [exact Hne|].
+        exists p. split; [apply (wf_sym g WF); exact Hp|exact Hc].
+      - intros [Hne [p [Hp Hs]]]. exists p. split; [apply (wf_sym g WF); exact Hp|].
+        apply filter_In. split; [exact Hs|]. apply negb_true_iff, Nat.eqb_neq. exact Hne. }
+    destruct (parents g x) eqn:EP; [|exact E].
+    cbn in E. exact E.
+  Qed.
+
+  (* ----------------------------------------------------------------------------------------- *)
+  (* go_to *)
+
+  Definition PathFrom (x t : id) (sigma : list id) : Prop := Chain g (x :: sigma) /\ last sigma x = t.
+
+  Lemma chain_reach : forall sigma x, sigma <> [] -> Chain g (x :: sigma) -> Reach g x (last sigma x).
+  Proof.
+    induction sigma as [|c s IH]; intros x Hne Hc; [contradiction|].
+    destruct Hc as [He Hc]. destruct s as [|c' s'].
+    - cbn. apply Reach1. exact He.
+    - assert (H := IH c (fun E => ltac:(discriminate E)) Hc).
+      rewrite last_cons2. eapply ReachS; eauto.
+  Qed.
+
+  Lemma rec_path_spec : forall f t x path pi,
+    dsize g - r x <= f -> x <> t ->
+    (In pi (rec_path f g t x path) <-> exists sigma, pi = path ++ sigma /\ sigma <> [] /\ PathFrom x t sigma).
+  Proof.
+    destruct RK as [Hr Hb].
+    induction f as [|f IH]; intros t x path pi Hf Hne; [specialize (Hb x); lia|].
+    cbn [rec_path]. rewrite in_flat_map. split.
+    - intros [c [Hc Hin]]. destruct (Nat.eqb c t) eqn:E.
+      + apply Nat.eqb_eq in E. subst c. destruct Hin as [<-|[]].
+        exists [t]. split; [reflexivity|]. split; [discriminate|]. split; [cbn; tauto|reflexivity].
+      + apply Nat.eqb_neq in E. apply IH in Hin; [|assert (Hlt := Hr x c Hc); specialize (Hb c); lia|exact E].
+        destruct Hin as [sg [-> [Hsg [Hch Hl]]]].
+        exists (c :: sg). split; [rewrite <- app_assoc; reflexivity|]. split; [discriminate|].
+        split.
+        * cbn [Chain]. split; [exact Hc|exact Hch].
+        * destruct sg as [|c' sg']; [contradiction|]. rewrite last_cons2. exact Hl.
+    - intros [sg [-> [Hsg [Hch Hl]]]]. destruct sg as [|c sg]; [contradiction|].
+      destruct Hch as [He Hch]. exists c. split; [exact He|].
+      destruct (Nat.eqb c t) eqn:E.
+      + apply Nat.eqb_eq in E. subst c. destruct sg as [|c' sg'].
+        * left. reflexivity.
+        * exfalso. assert (HR := chain_reach (c' :: sg') t (fun E => ltac:(discriminate E)) Hch).
+          rewrite last_cons2 in Hl. rewrite Hl in HR.
+          exact (Ranked_irrefl g r t RK HR).
+      + apply Nat.eqb_neq in E. apply IH; [assert (Hlt := Hr x c He); specialize (Hb c); lia|exact E|].
+        destruct sg as [|c' sg'].
+        * cbn in Hl. contradiction.
+        * exists (c' :: sg'). split; [rewrite <- app_assoc; reflexivity|]. split; [discriminate|].
+          split; [exact Hch|]. rewrite <- Hl. rewrite last_cons2. reflexivity.
+  Qed.
+
+  Lemma NoDup_flat_map_disj {A B} (f : A -> list B) l :
+    NoDup l -> (forall a, In a l -> NoDup (f a)) ->
+    (forall a b y, In a l -> In b l -> In y (f a) -> In y (f b) -> a = b) ->
+    NoDup (flat_map f l).
+  Proof.
+    induction 1 as [|a l Hn Hd IH]; intros H1 H2; cbn; [constructor|].
+    apply NoDup_app_intro.
+    - apply H1. left. reflexivity.
+    - apply IH.
+      + intros b Hb. apply H1. right. exact Hb.
+      + intros b c y Hb Hc. apply H2; right; assumption.
+    - intros y Hy1 Hy2. apply in_flat_map in Hy2 as [b [Hb Hy2]].
+      assert (a = b) by (apply (H2 a b y); [left; reflexivity|right; exact Hb|exact Hy1|exact Hy2]).
+      subst. contradiction.
+  Qed.
+
+  Lemma rec_path_prefix : forall f t x path pi,
+    In pi (rec_path f g t x path) -> exists c rest, In c (children g x) /\ pi = path ++ c :: rest.
+  Proof.
+    induction f as [|f IH]; intros t x path pi Hin; [contradiction|].
+    cbn [rec_path] in Hin. apply in_flat_map in Hin as [c [Hc Hin]].
+    destruct (Nat.eqb c t).
+    - destruct Hin as [<-|[]]. exists c, []. split; [exact Hc|reflexivity].
+    - apply IH in Hin as [c' [rest [_ ->]]]. exists c, (c' :: rest). split; [exact Hc|].
+      rewrite <- app_assoc. reflexivity.
+  Qed.
+
+  Lemma rec_path_nodup : forall f t x path, NoDup (rec_path f g t x path).
+  Proof.
+    induction f as [|f IH]; intros t x path; [constructor|].
+    cbn [rec_path]. apply NoDup_flat_map_disj.
+    - apply (wf_kid_nodup g WF).
+    - intros c _. destruct (Nat.eqb c t); [constructor; [intros []|constructor]|apply IH].
+    - intros c1 c2 pi _ _ H1 H2.
+      assert (P1 : exists rest, pi = path ++ c1 :: rest).
+      { destruct (Nat.eqb c1 t).
+        - destruct H1 as [<-|[]]. exists []. reflexivity.
+        - apply rec_path_prefix in H1 as [c' [rest [_ ->]]]. exists (c' :: rest). rewrite <- app_assoc. reflexivity. }
+      assert (P2 : exists rest, pi = path ++ c2 :: rest).
+      { destruct (Nat.eqb c2 t).
+        - destruct H2 as [<-|[]]. exists []. reflexivity.
+        - apply rec_path_prefix in H2 as [c' [rest [_ ->]]]. exists (c' :: rest). rewrite <- app_assoc. reflexivity. }
+      destruct P1 as [r1 E1]. destruct P2 as [r2 E2]. rewrite E1 in E2.
+      apply app_inv_head in E2. inversion E2. reflexivity.
+  Qed.
+
+  Lemma path_from_iff a b pi :
+    Path g a b pi <-> exists sigma, pi = a :: sigma /\ PathFrom a b sigma.
+  Proof.
+    unfold Path, PathFrom. split.
+    - intros [Hh [Hl [Hne Hc]]]. destruct pi as [|h sg]; [contradiction|].
+      cbn in Hh. inversion Hh; subst h. exists sg. split; [reflexivity|]. split; [exact Hc|].
+      rewrite <- Hl. destruct sg as [|c s]; [reflexivity|]. reflexivity.
+    - intros [sg [-> [Hc Hl]]]. split; [reflexivity|]. split; [|split; [discriminate|exact Hc]].
+      rewrite <- Hl. destruct sg as [|c s]; reflexivity.
+  Qed.
+
+  Theorem goto_paths a b ps :
+    go_to g a b = Ret ps -> (forall pi, In pi ps <-> Path g a b pi) /\ NoDup ps.
+  Proof.
+    unfold go_to. destruct (Nat.eqb a b) eqn:E.
+    - apply Nat.eqb_eq in E. subst b. intros H. inversion H; subst ps. split.
+      + intros pi. rewrite path_from_iff. split.
+        * intros [<-|[]]. exists []. split; [reflexivity|]. split; [exact I|reflexivity].
+        * intros [sg [-> [Hc Hl]]]. destruct sg as [|c s]; [left; reflexivity|].
+          exfalso. assert (HR := chain_reach (c :: s) a (fun E => ltac:(discriminate E)) Hc).
+          rewrite Hl in HR. exact (Ranked_irrefl g r a RK HR).
+      + constructor; [intros []|constructor].
+    - apply Nat.eqb_neq in E. destruct (negb (memb b (descendants g a))) eqn:D; [discriminate|].
+      intros H. inversion H; subst ps. split; [|apply rec_path_nodup].
+      intros pi. rewrite path_from_iff, rec_path_spec; [|destruct RK as [_ Hb]; specialize (Hb a); lia|exact E].
+      split.
+      + intros [sg [-> [_ HP]]]. exists sg. split; [reflexivity|exact HP].
+      + intros [sg [-> HP]]. exists sg. split; [reflexivity|]. split; [|exact HP].
+        intros ->. destruct HP as [_ Hl]. cbn in Hl. contradiction.
+  Qed.
+
+  Theorem goto_accepts a b : (exists ps, go_to g a b = Ret ps) <-> a = b \/ Reach g a b.
+  Proof.
+    unfold go_to. destruct (Nat.eqb a b) eqn:E.
+    - apply Nat.eqb_eq in E. split; [intros _; left; exact E|intros _; eexists; reflexivity].
+    - apply Nat.eqb_neq in E. destruct (memb b (descendants g a)) eqn:D; cbn [negb].
+      + apply memb_In, descendants_reach in D. split; [intros _; right; exact D|intros _; eexists; reflexivity].
+      + apply memb_false in D. rewrite descendants_reach in D. split.
+        * intros [ps H]. discriminate.
+        * intros [H|H]; contradiction.
+  Qed.
+
+  Theorem goto_refused a b : go_to g a b = Raise TreeError <-> a <> b /\ ~ Reach g a b.
+  Proof.
+    unfold go_to. destruct (Nat.eqb a b) eqn:E.
+    - apply Nat.eqb_eq in E. split; [discriminate|intros [H _]; contradiction].
+    - apply Nat.eqb_neq in E. destruct (memb b (descendants g a)) eqn:D; cbn [negb].
+      + apply memb_In, descendants_reach in D. split; [discriminate|intros [_ H]; contradiction].
+      + apply memb_false in D. rewrite descendants_reach in D. split; [intros _; split; assumption|reflexivity].
+  Qed.
+
+  (* a path exists exactly when the target is the start or reachable from it *)
+  Lemma path_exists a b : (exists pi, Path g a b pi) <-> a = b \/ Reach g a b.
+  Proof.
+    split.
+    - intros [pi HP]. apply path_from_iff in HP as [sg [-> [Hc Hl]]].
+      destruct sg as [|c s]; [left; exact Hl|]. right. rewrite <- Hl.
+      apply (chain_reach (c :: s) a); [discriminate|exact Hc].
+    - intros [->|HR].
+      + exists [b]. apply path_from_iff. exists []. split; [reflexivity|]. split; [exact I|reflexivity].
+      + induction HR as [a b He|a c b He HR IH].
+        * exists [a; b]. apply path_from_iff. exists [b]. split; [reflexivity|]. split; [cbn; tauto|reflexivity].
+        * destruct IH as [pi HP]. apply path_from_iff in HP as [sg [-> [Hc Hl]]].
+          exists (a :: c :: sg). apply path_from_iff. exists (c :: sg). split; [reflexivity|].
+          split; [cbn [Chain]; split; assumption|].
+          destruct sg as [|i sg]; [exact Hl|rewrite last_cons2; exact Hl].
+  Qed.
+End Queries.
